@@ -128,6 +128,19 @@ example : ((collOf ([3, 5, 2] : List ℚ) [0, 1, 1]).c0, (collOf ([3, 5, 2] : Li
     (collOf ([3, 5, 2] : List ℚ) [0, 1, 1]).cm, (collOf ([3, 5, 2] : List ℚ) [0, 1, 1]).other) = (some 2, none, some 3, false) := by
   decide +kernel
 
+/-- the dictionary `collOf` builds never contains a zero coefficient (the guard `hnz` of `series_forms_realise` /
+    `parallel_forms_realise` holds for it, as it does for SymPy's `collect`) -/
+theorem collOf_entries_nonzero (N D : List K) : (collOf N D).EntriesNonzero := by
+  unfold collOf Coll.EntriesNonzero
+  simp only
+  split
+  · refine ⟨fun v h => ?_, fun v h => ?_, fun v h => ?_⟩ <;>
+    · simp only [nz] at h
+      split at h
+      · cases h
+      · rename_i hne; simp only [Option.some.injEq] at h; subst h; exact hne
+  · simp
+
 /-- **accepts_iff** (series forms, dictionary of `N/D`; the parallel forms read the dictionary of `D/N`, so the same
     statements hold for them with `N` and `D` exchanged -- `accepts_iff_parallel`):
     a form accepts `N/D` iff `N/D` IS `cm/var + c0 + cp·var` with the terms the form has no element for equal to zero. -/
